@@ -52,7 +52,7 @@ type exec struct {
 func norm(name string) string { return strings.TrimPrefix(name, ".") }
 
 func (e *exec) Body() {
-	validate.VerifReset()
+	validate.VerifResetGlobals()
 	ooo0 := harn.Count("unit=Err.type=out_of_order")
 	inv0 := harn.Count("unit=Err.type=invalid")
 	in0 := harn.Count("unit=Metric.direction=in")
